@@ -186,6 +186,42 @@ theorem C11_effect (pre post : List Op) (op : Op) (s t : Path) (fs fs' : FS)
     fs'.read t = fs.read s ∧ (fs.read s).isSome = true :=
   exec_effect pre post op s t fs fs' hop hst hsimple hpre hpost h
 
+/-- **directory-form targets**: a COPY / TRANSFER / MOVE whose completed target is written with a trailing `/`
+    puts the source's content at `<that directory>/<name of the source>`; nothing is written at the directory's
+    own name (the source does not become a file called like the directory) -/
+theorem C11_dir_form (fs fs' : FS) (a : String) (s : Path) (b : Str) (g : Url) (op : Op)
+    (hd : dirForm g = true) (hb : s.getLast? = some b) (ha : a = "Copy" ∨ a = "Transfer" ∨ a = "Move")
+    (hop : helperOpU a s g = some op) (hne : s ≠ loc g ++ [b]) (h : stepOp fs op = some fs') :
+    fs'.read (loc g ++ [b]) = fs.read s ∧ (fs.read s).isSome = true
+    ∧ (loc g ≠ s → fs'.read (loc g) = fs.read (loc g)) := by
+  have hl : ¬ (dirForm g = true ∧ a = "Link") := by
+    rintro ⟨_, rfl⟩; rcases ha with h | h | h <;> simp at h
+  have ht : tloc s g = loc g ++ [b] := by simp [tloc, hd, hb]
+  have hne2 : loc g ≠ loc g ++ [b] := by
+    intro hh
+    have := congrArg List.length hh
+    simp at this
+  unfold helperOpU at hop
+  rw [if_neg hl, ht] at hop
+  unfold helperOp at hop
+  rcases ha with rfl | rfl | rfl
+  · simp at hop; subst hop
+    have e := step_effect fs fs' _ s (loc g ++ [b]) (Or.inl rfl) hne h
+    refine ⟨e.1, e.2.1, fun hs => ?_⟩
+    exact step_frame fs fs' _ (loc g) rfl h (by simpa [touched] using hne2)
+  · simp at hop; subst hop
+    have e := step_effect fs fs' _ s (loc g ++ [b]) (Or.inl rfl) hne h
+    refine ⟨e.1, e.2.1, fun hs => ?_⟩
+    exact step_frame fs fs' _ (loc g) rfl h (by simpa [touched] using hne2)
+  · simp at hop; subst hop
+    have e := step_effect fs fs' _ s (loc g ++ [b]) (Or.inr (Or.inr rfl)) hne h
+    refine ⟨e.1, e.2.1, fun hs => ?_⟩
+    exact step_frame fs fs' _ (loc g) rfl h (by simp [touched]; exact hs)
+
+/-- non-vacuity: `task:///inputs/` under COPY -/
+example : helperOpU "Copy" [['a'], ['f']] { schema := "file".toList, host := [], path := "/x/inputs/".toList }
+    = some (.copy [['a'], ['f']] [['x'], "inputs".toList, ['f']]) := by decide
+
 /-- **tarball**: unpacking puts every packed file at its target -/
 theorem C11_unpack (fs fs' : FS) (tp : Path) (es : List (Path × Nat)) (hr : fs.read tp = some (.tar es))
     (hnd : (es.map (·.1)).Nodup) (h : stepOp fs (.unpack tp) = some fs') :
@@ -592,12 +628,18 @@ theorem helperOp_notPut (a : String) (s g : Path) (op : Op) (h : helperOp a s g 
       · cases h; rfl
       · cases h
 
+theorem helperOpU_notPut (a : String) (s : Path) (g : Url) (op : Op) (h : helperOpU a s g = some op) : isPut op = false := by
+  unfold helperOpU at h
+  split at h
+  · cases h
+  · exact helperOp_notPut _ _ _ _ h
+
 theorem resolveOp_notPut (sc tc : List (String × Str)) (sd : SD) (op : Op) (h : resolveOp sc tc sd = .ok op) : isPut op = false := by
   unfold resolveOp at h
   split at h
   · next s g _ _ =>
     split at h
-    · next op' hh => cases h; exact helperOp_notPut _ _ _ _ hh
+    · next op' hh => cases h; exact helperOpU_notPut _ _ _ _ hh
     · cases h
   · cases h
   · cases h
